@@ -124,7 +124,8 @@ func (ts TypeSpecifier) parent() TypeSpecifier {
 		return TypeSpecifier{FHIR, "uri"}
 	case "Duration", "MoneyQuantity", "Age", "Count", "Distance", "SimpleQuantity":
 		return TypeSpecifier{FHIR, "Quantity"}
-	case "Timing", "Dosage", "ElementDefinition", "MarketingStatus", "ProductShelfLife":
+	case "Timing", "Dosage", "ElementDefinition", "MarketingStatus", "ProductShelfLife",
+		"Population", "ProdCharacteristic", "SubstanceAmount":
 		return TypeSpecifier{FHIR, "BackboneElement"}
 	case "Bundle", "Binary", "Parameters", "DomainResource":
 		return TypeSpecifier{FHIR, "Resource"}
